@@ -246,9 +246,29 @@ def step_table(ctx: Ctx, rule: str) -> None:
     ok3 = body == ["setup_dict = config['param_dict'].copy()", "config['param_dict'].update(param_dict)", "tool(config, tag=tag)", "config['param_dict'] = setup_dict"]
     ctx.record(rule + "p", "PAIR", f.ref, "the temporary parameters are applied for the reused tool only: a copy is saved before and restored after", ok3, {"body": body},
                "" if ok3 else "parameters of create/collect/clean leak into the later steps of a chain")
-    for name, verb in (("boot", "start"), ("shutdown", "stop"), ("download", "download"), ("upload", "upload"), ("control", "run")):
-        if not ctx.repo.has_func(f"{IS}:{name}"):
-            continue
+    # vm management steps: each runs the one manage.<variant> node per worker through the per-worker template
+    bad3 = {}
+    for name, variant in (("boot", "start"), ("shutdown", "stop"), ("download", "download"), ("upload", "upload"), ("control", "run")):
+        f = ctx.repo.func(f"{IS}:{name}")
+        ctx.touch(f.ref)
+        body = [s_ for s_ in f.node.body if not (isinstance(s_, ast.Expr) and isinstance(s_.value, ast.Constant))]
+        calls = [c for c in calls_in(f.node)]
+        ok = (len(body) == 1 and len(calls) == 1 and call_name(calls[0]) == "_parse_one_node_for_all_objects_per_worker" and len(calls[0].args) == 3
+              and [ast.unparse(a) for a in calls[0].args[:2]] == ["config", "tag"] and isinstance(calls[0].args[2], ast.Tuple) and len(calls[0].args[2].elts) == 4
+              and isinstance(calls[0].args[2].elts[1], ast.Constant) and calls[0].args[2].elts[1].value == variant and "with_cartesian_graph" in f.decorators)
+        if not ok:
+            bad3[name] = ast.unparse(calls[0])[:160] if calls else None
+    ctx.record(rule + "m", "TABLE", IS, "boot/shutdown/download/upload/control run exactly the manage.<start|stop|download|upload|run> node through the per-worker template, once", not bad3, {"changed": bad3},
+               "" if not bad3 else f"a vm management step runs another variant than its name says or runs it more than once: {bad3}")
+    # worker steps: every parsed worker is started / stopped once
+    for name in ("start", "stop"):
+        f = ctx.repo.func(f"{IS}:{name}")
+        ctx.touch(f.ref)
+        loops = [l for l in f.node.body if isinstance(l, ast.For)]
+        defs_w = [ast.unparse(s_.value) for s_ in f.node.body if isinstance(s_, ast.Assign) and ast.unparse(s_.targets[0]) == "workers"]
+        ok = (len(loops) == 1 and ast.unparse(loops[0].iter) == "workers" and len(loops[0].body) == 1 and ast.unparse(loops[0].body[0]) == f"{loops[0].target.id}.{name}()"
+              and defs_w == ["l.parse_workers(config['param_dict'])"] and "with_cartesian_graph" in f.decorators)
+        ctx.record(rule + "k", "COUNT", f.ref, f"{name}: every worker parsed from the run parameters is {name}ed exactly once", ok, {}, "" if ok else f"the {name} step no longer acts once on every selected worker")
     f = ctx.repo.func(f"{IS}:with_cartesian_graph.<locals>.wrapper")
     rets = [r for r in ast.walk(f.node) if isinstance(r, ast.Return)]
     ok4 = len(rets) == 1 and ast.unparse(rets[0].value) == "0 if runner.all_results_ok() else 1"
@@ -272,6 +292,8 @@ def run(ctx: Ctx) -> None:
 
 M = "plugins/manu.py"
 MUTANTS = [
+    ("shutdown-boots", "intertest_setup.py", "(\"Shutting down\", \"stop\", \"shutdown\", \"Shutdown\")", "(\"Shutting down\", \"start\", \"shutdown\", \"Shutdown\")", "m"),
+    ("stop-first-worker-only", "intertest_setup.py", "    for worker in workers:\n        worker.stop()", "    for worker in workers[:1]:\n        worker.stop()", "k"),
     ("last-step-decides", M, "                if setup_func(config, \"0m%s\" % i) not in [None, 0]:\n                    # return 1 if at least one of the steps fails\n                    retcode = 1",
      "                status = setup_func(config, \"0m%s\" % i)\n                retcode = 0 if status in [None, 0] else 1", "1b"),
     ("stop-at-first-failure", M, "                LOG_UI.error(\"Use 'export AVOCADO_LOG_EARLY=1' for further details.\")\n                retcode = 1", "                LOG_UI.error(\"Use 'export AVOCADO_LOG_EARLY=1' for further details.\")\n                retcode = 1\n                break", "1e"),
